@@ -99,12 +99,17 @@
 //! impl FusedIterator for MyEnumNames
 //! # {}
 //! ```
+#[cfg(not(feature = "__verif_lib"))]
 use proc_macro_error::proc_macro_error;
+#[cfg(not(feature = "__verif_lib"))]
 use syn::{parse_macro_input, DeriveInput};
 
 mod feature;
 mod generator;
 mod parser;
+#[cfg(feature = "__verif")]
+#[allow(missing_docs)]
+pub(crate) mod verif;
 
 /// Derive Macro for enums
 ///
@@ -367,6 +372,7 @@ mod parser;
 ///
 /// For enums with holes the function to create the range may be not very performant.
 ///
+#[cfg(not(feature = "__verif"))]
 #[proc_macro_error]
 #[proc_macro_derive(EnumTools, attributes(enum_tools))]
 pub fn enum_tools(tokens: proc_macro::TokenStream) -> proc_macro::TokenStream {
@@ -374,4 +380,100 @@ pub fn enum_tools(tokens: proc_macro::TokenStream) -> proc_macro::TokenStream {
     let (derive, features) = generator::Derive::parse(input);
 
     derive.generate(features).into()
+}
+
+/// Verification build of the derive (feature `__verif`): identical to the shipped entry
+/// point, plus the optional dump of the expansion text (see `verif::dump_expansion`).
+#[cfg(all(feature = "__verif", not(feature = "__verif_lib")))]
+#[proc_macro_error]
+#[proc_macro_derive(EnumTools, attributes(enum_tools))]
+pub fn enum_tools(tokens: proc_macro::TokenStream) -> proc_macro::TokenStream {
+    let input = parse_macro_input!(tokens as DeriveInput);
+    let ident = input.ident.to_string();
+    let (derive, features) = generator::Derive::parse(input);
+
+    let out = derive.generate(features);
+    verif::dump_expansion(&ident, &out.to_string());
+    out.into()
+}
+
+/// Verification seams for an in-process simulator (feature `__verif_lib`, which builds
+/// this crate as an ordinary library instead of a proc-macro).
+#[cfg(feature = "__verif_lib")]
+extern crate proc_macro;
+
+#[cfg(feature = "__verif_lib")]
+#[allow(missing_docs)]
+pub mod __verif {
+    pub use crate::verif::{set_hash_plan, HashMap, SimBuildHasher, Strategy};
+
+    /// Outcome of one derive invocation.
+    #[derive(Debug, Clone, PartialEq, Eq)]
+    pub enum Outcome {
+        /// accepted: the text of the generated code
+        Expanded(String),
+        /// the input is not a `DeriveInput`
+        ParseError(String),
+        /// `abort!` was called (the expansion did not run to its end)
+        Aborted,
+        /// only `emit_error!` was called: the expansion ran to its end and is discarded
+        Rejected,
+        /// a plain panic inside the derive
+        Panicked(String),
+    }
+
+    /// Does what the shipped entry point does — `syn` parse, `Derive::parse`, `generate` —
+    /// inside `proc_macro_error::entry_point`, so `abort!`/`emit_error!` and their
+    /// thread-locals behave as they do inside rustc.
+    pub fn expand(tokens: proc_macro2::TokenStream) -> Outcome {
+        use std::panic::{catch_unwind, AssertUnwindSafe};
+        let mut text: Option<String> = None;
+        let mut parse_error: Option<String> = None;
+        let caught = catch_unwind(AssertUnwindSafe(|| {
+            proc_macro_error::entry_point(
+                AssertUnwindSafe(|| {
+                    match syn::parse2::<syn::DeriveInput>(tokens) {
+                        Ok(input) => {
+                            let (derive, features) = crate::generator::Derive::parse(input);
+                            text = Some(derive.generate(features).to_string());
+                        }
+                        Err(e) => parse_error = Some(e.to_string()),
+                    }
+                    proc_macro::TokenStream::new()
+                }),
+                false,
+            )
+        }));
+        if let Some(e) = parse_error {
+            return Outcome::ParseError(e);
+        }
+        match caught {
+            Ok(_) => match text {
+                Some(t) => Outcome::Expanded(t),
+                None => Outcome::Panicked("no output".to_string()),
+            },
+            Err(payload) => {
+                let msg = if let Some(s) = payload.downcast_ref::<&'static str>() {
+                    (*s).to_string()
+                } else if let Some(s) = payload.downcast_ref::<String>() {
+                    s.clone()
+                } else {
+                    "<non-string panic payload>".to_string()
+                };
+                // outside rustc, entry_point cannot convert the collected diagnostics
+                // into a compiler token stream: that conversion panics *after* the
+                // thread-local state has been cleaned up, and tells us the derive
+                // was rejected through abort!/emit_error!.
+                if msg.contains("outside of a procedural macro") {
+                    if text.is_some() {
+                        Outcome::Rejected
+                    } else {
+                        Outcome::Aborted
+                    }
+                } else {
+                    Outcome::Panicked(msg)
+                }
+            }
+        }
+    }
 }
